@@ -12,7 +12,31 @@ pub mod collections {
         pub fn new() -> Self { HashMap { entries: Vec::with_capacity(8) } }
         pub fn len(&self) -> usize { self.entries.len() }
         pub fn is_empty(&self) -> bool { self.entries.is_empty() }
-        pub fn iter(&self) -> impl Iterator<Item = (&K, &V)> { self.entries.iter().map(|e| (&e.0, &e.1)) }
+        /// Iteration order of a hash map is unspecified: under Kani it starts at a solver-chosen entry (a rotation), so
+        /// code whose result depends on the order becomes nondeterministic and any comparison with a reference fails.
+        fn order_start(&self) -> usize {
+            #[cfg(kani)]
+            {
+                if self.entries.len() > 1 {
+                    let k: usize = kani::any();
+                    kani::assume(k < self.entries.len());
+                    return k;
+                }
+            }
+            0
+        }
+        pub fn iter(&self) -> impl Iterator<Item = (&K, &V)> {
+            let s = self.order_start();
+            self.entries[s..].iter().chain(self.entries[..s].iter()).map(|e| (&e.0, &e.1))
+        }
+        pub fn keys(&self) -> impl Iterator<Item = &K> { self.iter().map(|e| e.0) }
+        pub fn values(&self) -> impl Iterator<Item = &V> { self.iter().map(|e| e.1) }
+        pub fn clear(&mut self) { self.entries.clear() }
+    }
+    impl<'a, K, V> IntoIterator for &'a HashMap<K, V> {
+        type Item = (&'a K, &'a V);
+        type IntoIter = real_std::vec::IntoIter<(&'a K, &'a V)>;
+        fn into_iter(self) -> Self::IntoIter { self.iter().collect::<Vec<_>>().into_iter() }
     }
     impl<K: Eq, V> HashMap<K, V> {
         pub fn get<Q: ?Sized + Eq>(&self, k: &Q) -> Option<&V> where K: Borrow<Q> {
@@ -24,6 +48,22 @@ pub mod collections {
             None
         }
         pub fn contains_key<Q: ?Sized + Eq>(&self, k: &Q) -> bool where K: Borrow<Q> { self.get(k).is_some() }
+        pub fn get_mut<Q: ?Sized + Eq>(&mut self, k: &Q) -> Option<&mut V> where K: Borrow<Q> {
+            let mut i = 0;
+            while i < self.entries.len() {
+                if self.entries[i].0.borrow() == k { return Some(&mut self.entries[i].1); }
+                i += 1;
+            }
+            None
+        }
+        pub fn remove<Q: ?Sized + Eq>(&mut self, k: &Q) -> Option<V> where K: Borrow<Q> {
+            let mut i = 0;
+            while i < self.entries.len() {
+                if self.entries[i].0.borrow() == k { return Some(self.entries.remove(i).1); }
+                i += 1;
+            }
+            None
+        }
         pub fn insert(&mut self, k: K, v: V) -> Option<V> {
             let mut i = 0;
             while i < self.entries.len() {
@@ -61,5 +101,13 @@ pub mod collections {
         pub fn insert(&mut self, k: K) -> bool {
             if self.contains(&k) { false } else { self.entries.push(k); true }
         }
+        pub fn len(&self) -> usize { self.entries.len() }
+        pub fn is_empty(&self) -> bool { self.entries.is_empty() }
+        pub fn remove<Q: ?Sized + Eq>(&mut self, k: &Q) -> bool where K: Borrow<Q> {
+            let mut i = 0;
+            while i < self.entries.len() { if self.entries[i].borrow() == k { self.entries.remove(i); return true; } i += 1; }
+            false
+        }
+        pub fn iter(&self) -> impl Iterator<Item = &K> { self.entries.iter() }
     }
 }
